@@ -252,8 +252,8 @@ theorem mech_linearisation_exists (kw : List String) (ops : List Op) (q : Path) 
 `D.f` is the derived copy of `C.f`; after `C.f` is deleted it is the copy of `A.f`; after the base
 `A` is removed from `B` and `C` … -/
 def diamondOps : List Op := [
-  .newSpace [] "A" [], .newCells ["A"] "f" 1, .newSpace [] "B" [["A"]], .newSpace [] "C" [["A"]],
-  .setFormula ["C"] "f" 2, .newSpace [] "D" [["B"], ["C"]]]
+  .newSpace [] "A" [] [], .newCells ["A"] "f" "f" 1, .newSpace [] "B" [["A"]] [], .newSpace [] "C" [["A"]] [],
+  .setFormula ["C"] "f" 2, .newSpace [] "D" [["B"], ["C"]] []]
 
 example : (St.run [] {} diamondOps).mem .cells ["D"] "f" = some { derived := true, payload := 2 } := by decide
 example : (St.run [] {} diamondOps).tail ["D"] = [["B"], ["C"], ["A"]] := by decide
@@ -263,7 +263,7 @@ example : (St.run [] {} (diamondOps ++ [.delCells ["A"] "f"])).mem .cells ["B"] 
 example : (St.run [] {} (diamondOps ++ [.delCells ["A"] "f"])).mem .cells ["D"] "f"
     = some { derived := true, payload := 2 } := by decide
 -- an operation that is refused (`E(A, B)` has no linearisation)
-example : ((St.run [] {} diamondOps).step [] (.newSpace [] "E" [["A"], ["B"]])).2 = false := by decide
+example : ((St.run [] {} diamondOps).step [] (.newSpace [] "E" [["A"], ["B"]] [])).2 = false := by decide
 
 end mechanism
 
